@@ -30,7 +30,8 @@ Build == /\ IsEv("build")
          /\ first' = IF E.ret.e = "nil" /\ ~(\E k \in 1 .. Len(first) : first[k][1] = E.input)
                      THEN Append(first, <<E.input, E.root, E.ret.size>>) ELSE first
 Done == l = Len(Trace) + 1 /\ UNCHANGED vars
-Next == Reset \/ Build \/ Done
+Crash == IsEv("crash") /\ UNCHANGED first
+Next == Reset \/ Build \/ Crash \/ Done
 TraceSpec == Init /\ [][Next]_vars
 
 Has == l > 1
@@ -60,7 +61,8 @@ RECURSIVE Reach(_)
 Reach(c) == IF c \notin CommittedC THEN {c}
             ELSE {c} \cup UNION {Reach(CM[FirstCommit(c)].links[k].c) : k \in 1 .. Len(CM[FirstCommit(c)].links)}
 
-Cond_NoPanic == IsBuildAny => Ev.ret.e # "panic"
+NoCrash == ~(l > 1 /\ Trace[l - 1].ev = "crash")   \* the code under test took the whole harness process down (driver: mark_crash)
+Cond_NoPanic == NoCrash /\ (IsBuildAny => Ev.ret.e # "panic")
 
 \* ---- C16 ----
 Cond_C16_NoDangling == IsBuild =>
